@@ -81,12 +81,13 @@ func hCheckSublevels(s *l0Sublevels, files []*TableMetadata, specs []hL0Spec, ta
 // lowest sublevel that allows, files of one sublevel are disjoint and key
 // ordered; and adding the newest file incrementally (addL0Files) gives the
 // same sublevel assignment as rebuilding from scratch.
-func VerifHarness_C16_Sublevels() {
-	n := 2 + sym.Choose("files", 2)
-	if sym.Thorough() {
-		n = 4
-	}
-	files, specs := hL0Files(n)
+func VerifHarness_C16_Sublevels() { hSublevels(2+sym.Choose("files", 2), true) }
+
+// four files, inclusive bounds only
+func VerifHarness_C16_Sublevels4_Thorough() { hSublevels(4, false) }
+
+func hSublevels(n int, exclusiveEnds bool) {
+	files, specs := hL0FilesX(n, exclusiveEnds)
 	cmp := base.DefaultComparer.Compare
 	lmAll := MakeLevelMetadata(cmp, 0, files)
 	all, err := newL0Sublevels(&lmAll, cmp, base.DefaultFormatter, 1<<20)
